@@ -266,6 +266,8 @@ def check(ctx):
     cases = [T.UADouble(0.0), T.UADouble(-0.0), T.UAFloat(-0.0), T.UAFloat(0.0), T.UADouble(1.0), T.UADouble(1),
              T.UAListOf((T.UADouble(-0.0), T.UADouble(0.0)), "Double"), T.UAListOf((T.UAFloat(0.0), T.UAFloat(-0.0)), "Float"),
              T.UAEURange(low=-0.0, high=0.0), T.UAEURange(low=0.0, high=-0.0),
+             # Float values that are not single-precision numbers (the class holds a Python float: its text must keep every digit)
+             T.UAFloat(0.1), T.UAFloat(1 / 3), T.UAFloat(16777217.0), T.UAFloat(1e-45), T.UAFloat(3.4028235677973366e+38), T.UAFloat(-2.5000000000000004), T.UAListOf((T.UAFloat(0.1), T.UAFloat(0.30000000000000004)), "Float"),
              # text with every character XML treats specially, in every order, and the one sequence that is special as a whole
              T.UAString("x[y[0]]>z"), T.UAString("a > b >= c"), T.UAString("]]>"), T.UAString("<![CDATA[x]]>"), T.UAGuid("g]]>"), T.UALocalizedText("t]]>u", "en"),
              T.UAListOf((T.UAString("]]>"), T.UAString("&<>\"'")), "String"), T.UAString("&amp;"), T.UAString("&#65;"),
